@@ -25,7 +25,7 @@ RULE = (
     'capitalised look-alikes of none / true. Rounds 7-8: none with a unit; the empty string; files that begin '
     'with a blank line; quote characters in trailing comments (strategy quoted_comment; known finding C13-K1). '
     'Round 9: triple quotes inside comments; blank lines and lines of blanks between the rows of a table. '
-    'Distinct = distinct rendered text.'
+    'Round 10: the second text of a two-round / shared-base history stands further to the right as a whole. Distinct = distinct rendered text.'
 )
 ASSUMPTIONS = [
     "no node has children below a table (the table line is replaced by its columns)",
